@@ -259,7 +259,7 @@ let hier_ops_of (ops : string) : Hierarchy.hier_op list =
     | ["P"] -> Hierarchy.HPop
     | _ -> failwith ("bad hier op " ^ op)) (split_on ';' ops)
 
-let hierarchy_obs (b : Hierarchy.builder) : string =
+let hierarchy_obs ?(extra=false) (b : Hierarchy.builder) : string =
   let open Hierarchy in
   let w = get (full_walk b) in
   let items = Stdlib.List.map (fun (d, it) ->
@@ -270,11 +270,13 @@ let hierarchy_obs (b : Hierarchy.builder) : string =
       Printf.sprintf "%dS%d:%s:%s:%d:%s" d (int_of_nat i) (hex_of_bytes sc.sc_name)
         (hex_of_bytes (get (scope_full_name (items_fuel b) b i))) (int_of_n sc.sc_tpe)
         (match sc.sc_component with None -> "~" | Some c -> hex_of_bytes c)
+      ^ (if extra then ":" ^ (match sc.sc_decl with None -> "~" | Some (p, l) -> hex_of_bytes p ^ "@" ^ string_of_int (int_of_n l)) ^ ":~" else "")
     | IVar i ->
       let v = Stdlib.List.nth b.hb_vars (int_of_nat i) in
       Printf.sprintf "%dV%d:%s:%s:%d:%d:%s:%s:%d" d (int_of_nat i) (hex_of_bytes v.v_name)
         (hex_of_bytes (get (var_full_name b i))) (int_of_n v.v_tpe) (int_of_n v.v_direction)
-        (enc_str v.v_enc) (index_str v.v_index) (int_of_nat v.v_signal)) w in
+        (enc_str v.v_enc) (index_str v.v_index) (int_of_nat v.v_signal)
+      ^ (if extra then ":" ^ (match v.v_type_name with None -> "~" | Some t -> hex_of_bytes t) ^ ":~" else "")) w in
   let refs items =
     let vs = Stdlib.List.filter_map (fun it -> match it with IVar i -> Some (string_of_int (int_of_nat i)) | _ -> None) items in
     let ss = Stdlib.List.filter_map (fun it -> match it with IScope i -> Some (string_of_int (int_of_nat i)) | _ -> None) items in
@@ -355,6 +357,19 @@ let cmd_slice (args : string list) : string =
     "p=" ^ signal_obs parent ^ " s=" ^ signal_obs sliced
   | _ -> "BADCASE"
 
+
+(* ---- vhdr <flatten> <filehex> ---- *)
+let cmd_vhdr (args : string list) : string =
+  match args with
+  | [fl; file] ->
+    let r = get (VcdHeader.read_header (fl = "1") (bytes_of_hex file)) in
+    let b = get (Hierarchy.hier_run Hierarchy.hb_new r.VcdHeader.hr_ops) in
+    Printf.sprintf "%s date=%s version=%s ts=%s hl=%d" (hierarchy_obs ~extra:true b)
+      (hex_of_bytes r.VcdHeader.hr_date) (hex_of_bytes r.VcdHeader.hr_version)
+      (match r.VcdHeader.hr_timescale with None -> "~" | Some (f, u) -> Printf.sprintf "%d:%d" (int_of_n f) (int_of_n u))
+      (int_of_nat r.VcdHeader.hr_len)
+  | _ -> "BADCASE"
+
 let dispatch (cmd : string) (args : string list) : string =
   match cmd with
   | "offsets" -> cmd_offsets args
@@ -362,6 +377,7 @@ let dispatch (cmd : string) (args : string list) : string =
   | "body" -> cmd_body args
   | "fstw" -> cmd_fstw args
   | "hier" -> cmd_hier args
+  | "vhdr" -> cmd_vhdr args
   | "detect" -> cmd_detect args
   | "slice" -> cmd_slice args
   | "vcd" -> cmd_vcd args
